@@ -284,8 +284,59 @@ def function_control_case(ctx, rng, n):
     return True
 
 
+def wide_sampled_case(ctx, rng):
+    """sampled simulation with saved mid-circuit outcomes on a register with MANY classical bits (number of MEASURE gates
+    + width between 7 and 14: the shot loop addresses measurement keys by number): X / CNOT programs whose outcomes
+    are a deterministic function of at most two coin flips, so every sampled key can be checked exactly"""
+    from tangelo.linq import get_backend
+    n = rng.randint(3, 8)
+    m = rng.randint(max(1, 7 - n), max(2, 14 - n))
+    coins = rng.choice([0, 0, 1, 2]) if n >= 3 else 0
+    coins = min(coins, m, n - 1)
+    ins, evaluate = vlib.classical_meas_prog(rng, n, m, coins)
+    circ = vlib.classical_prog_to_circuit(ins, n)
+    n_meas = sum(1 for g in ins if g[0] == "MEASURE")
+    shots = rng.randint(3, 25)
+    case = {"kind": "wide_sampled", "n": n, "ins": [list(g) for g in ins], "n_shots": shots}
+    ctx.case(case, nontrivial=True, sample=len(ins) <= 8)
+    ctx.count(f"wide_sampled:bits={'<=10' if n + n_meas <= 10 else '>10'}")
+    allowed = {}
+    import itertools
+    for cb in itertools.product([0, 1], repeat=coins):
+        mid, fin = evaluate(list(cb))
+        allowed[mid] = fin
+    np.random.seed(rng.randint(0, 2 ** 31))
+    sim = get_backend("cirq", n_shots=shots)
+    freqs, _ = sim.simulate(circ, save_mid_circuit_meas=True)
+    mid_f = dict(sim.mid_circuit_meas_freqs)
+    all_f = dict(sim.all_frequencies)
+    bad = None
+    if abs(sum(freqs.values()) - 1) > 1e-9 or abs(sum(mid_f.values()) - 1) > 1e-9 or abs(sum(all_f.values()) - 1) > 1e-9:
+        bad = f"frequencies do not sum to one: final {freqs}, mid {mid_f}, all {all_f}"
+    elif not set(mid_f) <= set(allowed):
+        bad = f"mid-circuit outcomes {sorted(mid_f)} are not among the possible ones {sorted(allowed)}"
+    elif not set(freqs) <= set(allowed.values()):
+        bad = f"final outcomes {sorted(freqs)} are not among the possible ones {sorted(set(allowed.values()))}"
+    elif any(k[:n_meas] not in allowed or allowed[k[:n_meas]] != k[n_meas:] for k in all_f):
+        bad = f"joint outcomes {sorted(all_f)} do not pair each mid-circuit string with its final state {allowed}"
+    if bad:
+        ctx.violation(f"sampled run with save_mid_circuit_meas ({n} qubits, {n_meas} MEASUREs, {shots} shots): " + bad, case)
+        return False
+    # sampling conditioned on one of the possible outcome strings returns that branch
+    mid = rng.choice(sorted(allowed))
+    np.random.seed(rng.randint(0, 2 ** 31))
+    f2, _ = get_backend("cirq", n_shots=200).simulate(circ, desired_meas_result=mid)
+    if set(f2) != {allowed[mid]}:
+        ctx.violation(f"sampling conditioned on {mid!r} ({n} qubits, {n_meas} MEASUREs) returns {f2}, the branch is the basis state {allowed[mid]!r}", case)
+        return False
+    return True
+
+
 def run(ctx):
     rng = ctx.rng
+    for i in range(ctx.n(25, 400)):
+        if not wide_sampled_case(ctx, rng):
+            return
     for i in range(ctx.n(110, 3000)):
         n = rng.randint(1, ctx.n(3, 4))
         prog = rand_prog(rng, n)
